@@ -321,6 +321,32 @@ def main(t, sd):
             ev_ = engine_view_cmp(w['view'])
             if nv is None or {k: nv[k] for k in ('tokens', 'rules', 'starts')} != ev_:
                 mism.append(f"typed view differs from the native run for {[fp0.tokens[k] for k in w['witness']]}: engine {ev_} native {nv}")
+    # derived string accessors (number / node_name / whole_rule / is_true) on the same witnesses, spelled with several lexeme
+    # variants for the kinds that carry a payload; the expectation is read off the lexeme itself
+    derived_checked = 0
+    if wits:
+        import re as _re
+        lines = []
+        for w in wits:
+            kinds = [fp0.tokens[k] for k in w['witness']]
+            if any(k in ('NodeMarker', 'NodeCreation', 'Predicate') for k in kinds):
+                for var in ('', 'V1 ', 'V2 ', 'V3 '): lines.append((w, var + ' '.join(kinds)))
+        seen_bad = set()
+        for (w, line), o in zip(lines, c12.fe_native_run(exe, [l for _, l in lines]) if lines else []):
+            if o.get('unlexable') or o.get('panic') or o.get('crash') or not isinstance(o.get('view'), dict): continue
+            for d in o['view'].get('derived', []):
+                f = d.split('|'); derived_checked += 1; bad = None
+                if f[0] == 'node_marker':
+                    if f[2] != f[1][1:]: bad = f'NodeMarker::number() of {f[1]!r} is {f[2]!r}, expected {f[1][1:]!r}'
+                elif f[0] == 'node_creation':
+                    num, _, name = f[1].partition('>')
+                    exp = [num or '~none~', name or '~none~', 'true' if not num else 'false']
+                    if f[2:5] != exp: bad = f'NodeCreation number/node_name/whole_rule of {f[1]!r} are {f[2:5]}, expected {exp}'
+                elif f[0] == 'predicate':
+                    if f[2] != ('true' if f[1] == '?t' else 'false'): bad = f'Predicate::is_true() of {f[1]!r} is {f[2]}'
+                if bad and bad not in seen_bad:
+                    seen_bad.add(bad)
+                    viol.append(dict(kind='derived-accessor', detail=bad + f' (tokens {line})', witness=w['witness'], confirmed=True, native=d, text=line, derived=True))
     for v in viol:
         if 'text' in v: continue
         line = ' '.join(fp0.tokens[k] for k in v['witness'])
@@ -374,7 +400,7 @@ def main(t, sd):
     os.makedirs(os.path.join(VERIF, 'evidence'), exist_ok=True)
     json.dump(ev, open(os.path.join(VERIF, 'evidence', 'C13.json'), 'w'), indent=1, default=str)
     print(f"C13: tier={t} N={N} sentence_paths={paths} violations={reported} inconclusive={len(inconc)} wall={time.time() - t0:.1f}s")
-    print(f"C13: native validation of typed views: {validated} witnesses, {len(mism)} mismatches")
+    print(f"C13: native validation of typed views: {validated} witnesses, {len(mism)} mismatches; derived string accessors checked on lexeme variants: {derived_checked}")
     if reported: return 1
     if inconc or mism:
         for x in (inconc + mism)[:10]: print('INCONCLUSIVE:', x[:400])
